@@ -931,6 +931,18 @@ func genSVGDoc(r *core.Rand) string {
 			b.WriteString("<style>" + r.Pick([]string{"a:after{content:\"&#38;\"}", "b[title=\"&#60;x\"]{fill:red}", "rect{fill:#F00}", ".c > .d { stroke : blue }", "t:after{content:\"&amp;&lt;\"}", "<![CDATA[ a > b { fill : red } ]]>"}) + "</style>")
 		case k == 11:
 			b.WriteString("<a xlink:href=\"http://example.com/?a=1&amp;b=2\" xlink:title=\"t\"><rect width=\"1\" height=\"1\"/></a>")
+		case k == 14:
+			// foreign content is copied through as it is; the element may carry the declared svg: prefix
+			name := "foreignObject"
+			if svgPrefix && r.Chance(1, 2) {
+				name = "svg:foreignObject"
+			}
+			fmt.Fprintf(&b, "<%s x=\"%s\" width=\"100\" height=\"50.0\">", name, genPathNumber(r, false))
+			b.WriteString(r.Pick([]string{"<div xmlns=\"http://www.w3.org/1999/xhtml\"><p>text  here</p></div>", "<body xmlns=\"http://www.w3.org/1999/xhtml\"><p class=\"a  b\">x &amp; y</p></body>", "plain  text", ""}))
+			b.WriteString("</" + name + ">")
+			if r.Chance(1, 2) {
+				b.WriteString("<rect width=\"1.0\" height=\"1\"/>")
+			}
 		case k == 12:
 			b.WriteString("<image xlink:href=\"data:image/png;base64,iVBORw0KGgo=\" width=\"10\" height=\"10\"/>")
 		default:
@@ -986,7 +998,9 @@ func c05Judge(doc string, inline bool) (string, string) {
 	if e1 != nil {
 		return "INVALID-INPUT", out
 	}
-	to, e2 := svgTree(out, false)
+	// removable parts that the minifier left in place (it copies the rest of a document through after some
+	// constructs) are as harmless in the output as in the input: dropped from both sides
+	to, e2 := svgTree(out, true)
 	if e2 != nil {
 		return "output is not well-formed: " + e2.Error(), out
 	}
